@@ -54,6 +54,7 @@ func (m *Mutex) Unlock() {
 	if !m.locked {
 		panic("sync: unlock of unlocked mutex")
 	}
+	vsched.Event(vsched.OpUnlock, m.oid(), true)
 	m.locked = false
 }
 
@@ -96,6 +97,7 @@ func (m *RWMutex) Unlock() {
 	if !m.writer {
 		panic("sync: Unlock of unlocked RWMutex")
 	}
+	vsched.Event(vsched.OpUnlock, m.oid(), true)
 	m.writer = false
 }
 
@@ -117,6 +119,7 @@ func (m *RWMutex) RUnlock() {
 	if m.readers <= 0 {
 		panic("sync: RUnlock of unlocked RWMutex")
 	}
+	vsched.Event(vsched.OpUnlock, m.oid(), false)
 	m.readers--
 }
 
@@ -144,6 +147,7 @@ func (w *WaitGroup) Add(d int) {
 	if vsched.Aborting() {
 		return
 	}
+	vsched.Event(vsched.OpWait, w.oid(), true)
 	w.n += d
 	if w.n < 0 {
 		panic("sync: negative WaitGroup counter")
@@ -174,7 +178,7 @@ func (o *Once) Do(f func()) {
 		return
 	}
 	o.running = true
-	defer func() { o.running = false; o.done = true }()
+	defer func() { vsched.Event(vsched.OpOnce, o.id, true); o.running = false; o.done = true }()
 	f()
 }
 
@@ -183,9 +187,18 @@ func (o *Once) Do(f func()) {
 type Pool struct {
 	New   func() any
 	items []any
+	id    uint64
+}
+
+func (p *Pool) ev() {
+	if p.id == 0 {
+		p.id = vsched.NewObj()
+	}
+	vsched.Event(vsched.OpPool, p.id, true)
 }
 
 func (p *Pool) Get() any {
+	p.ev()
 	if n := len(p.items); n > 0 {
 		x := p.items[n-1]
 		p.items[n-1] = nil
@@ -211,6 +224,7 @@ func (p *Pool) Put(x any) {
 	if x == nil {
 		return
 	}
+	p.ev()
 	if DebugPool {
 		if b, ok := x.(*[]byte); ok && cap(*b) > 0 {
 			for _, it := range p.items {
